@@ -19,6 +19,13 @@ def run(chk, tier):
     # ("this header type was validated already"): those hold only while each memo cache belongs to one validator
     import gguard
     gguard.check_memo_caches(chk)
+    # the generators re-check offsets while files are already being written (utils::get_valid_offset throws "custom offset
+    # ... is less than minimal"): a rejected schema leaves no files behind only because the validator's own offset guards
+    # reject first, for exactly the same inputs (an explicit offset - also 0 - below the running offset).  Linked
+    # G-GUARD instances:
+    gguard.check(chk, only_prefixes=["sbe_schema_validator::validate_field_offset | ",
+                                     "sbe_schema_validator::validate_element_offset | ",
+                                     "utils::get_valid_offset | "], effects=False)
     import gcalls
     gcalls.check_order(chk)
     gtpl.check(chk)
